@@ -33,10 +33,36 @@ func (c *RuleCtx) typeTags() (dispatch map[string][]int64, guard map[string]int6
 		if !ok || typeShort(mi.Type()) != "chunk" {
 			return
 		}
+		t := strings.TrimPrefix(typeShort(mi.X.Type()), "*")
 		if k, ok := constCaseOf(in, AnyV); ok {
-			t := strings.TrimPrefix(typeShort(mi.X.Type()), "*")
 			dispatch[t] = append(dispatch[t], k)
+		} else {
+			// a multi-value case (case a, b:): every predecessor is the true side of "x == k"
+			var ks []int64
+			okAll := len(in.Block().Preds) > 0
+			for _, p := range in.Block().Preds {
+				ifi, isIf := p.Instrs[len(p.Instrs)-1].(*ssa.If)
+				if !isIf || p.Succs[0] != in.Block() {
+					okAll = false
+					break
+				}
+				b, isB := ifi.Cond.(*ssa.BinOp)
+				if !isB || b.Op != token.EQL {
+					okAll = false
+					break
+				}
+				k, isK := constInt(b.Y)
+				if !isK {
+					okAll = false
+					break
+				}
+				ks = append(ks, k)
+			}
+			if okAll {
+				dispatch[t] = append(dispatch[t], ks...)
+			}
 		}
+		sort.Slice(dispatch[t], func(i, j int) bool { return dispatch[t][i] < dispatch[t][j] })
 	})
 	typF := c.field("chunkHeader", "typ")
 	for _, t := range c.implementors("chunk") {
@@ -408,12 +434,17 @@ func init() {
 				}
 				if name, _, ok := binaryCall(&call.Call); ok && name == "PutUint16" && offsetOf(call.Call.Args[1]) == "2" {
 					v := unconv(call.Call.Args[2])
-					if b, ok := v.(*ssa.BinOp); ok && b.Op == token.ADD && IsConstInt(4)(b.Y) {
-						if lc, ok := b.X.(*ssa.Call); ok {
-							if bi, ok := lc.Call.Value.(*ssa.Builtin); ok && bi.Name() == "len" && IsLoadOf(raw)(lc.Call.Args[0]) {
-								okLen = true
-							}
+					isLenRaw := func(x ssa.Value) bool {
+						lc, ok := unconv(x).(*ssa.Call)
+						if !ok {
+							return false
 						}
+						bi, ok := lc.Call.Value.(*ssa.Builtin)
+						return ok && bi.Name() == "len" && IsLoadOf(raw)(lc.Call.Args[0])
+					}
+					if b, ok := v.(*ssa.BinOp); ok && b.Op == token.ADD &&
+						((IsConstInt(4)(b.Y) && isLenRaw(b.X)) || (IsConstInt(4)(b.X) && isLenRaw(b.Y))) {
+						okLen = true
 					}
 				}
 			})
